@@ -28,25 +28,256 @@ def L(xs):
     return "%d %s" % (len(xs), " ".join(map(str, xs))) if xs else "0"
 
 
+# ---------------------------------------------------------------------------------------------
+# The naive model of a BitBuffer: a Vec<bool> of stored bits (whole bytes) plus the two cursors.
+# Written from the property text, independent of the Coq model:
+#   * a write of n bits at the write position makes the storage long enough to hold bits
+#     [0, wpos+n) (whole bytes, new bits zero), replaces exactly bits [wpos, wpos+n) and advances
+#     the write position by n; a source that is too short is an error and changes nothing;
+#   * read_bit fails at read_position >= bit_len; a multi-bit read copies bits [rpos, rpos+n) into the
+#     destination range and advances the read position by n; it fails, changing nothing, when fewer than
+#     n bits lie between the read position and bit_len or the destination is too short;
+#   * the scoped combinators set a cursor, run the nested op and put the saved value back.
+# ---------------------------------------------------------------------------------------------
+class NB:
+    def __init__(self, store, w, r):
+        self.store = list(store)
+        self.w = w
+        self.r = r
+
+    def inv(self):
+        return len(self.store) == 8 * ((self.w + 7) // 8) and not any(self.store[self.w:])
+
+    def write(self, xs):
+        need = 8 * ((self.w + len(xs) + 7) // 8)
+        if len(self.store) < need:
+            self.store += [0] * (need - len(self.store))
+        self.store[self.w:self.w + len(xs)] = xs
+        self.w += len(xs)
+
+
+W_OPS = (1, 2, 7, 11, 12)
+R_OPS = (3, 4, 13, 14, 15)
+SCOPES = (20, 21, 22)
+
+
+class Panic(Exception):
+    def __init__(self, cls):
+        self.cls = cls
+
+
+def sim_buf_op(nb, ops, i, dev, notes):
+    """simulate one (possibly nested) sub-op on the naive buffer. -> (i', expectation, payload_len)
+    expectation: ("ok", payload) | ("err",) ; raises Panic(cls) for a documented panic."""
+    op = ops[i]
+    i += 1
+    if op == 1:
+        nb.write([1 if ops[i] else 0])
+        return i + 1, ("ok", []), 0
+    if op in (2, 7, 11, 12):
+        soff, slen = 0, None
+        if op == 2:
+            soff, slen = ops[i], ops[i + 1]
+            i += 2
+        elif op == 7:
+            soff = ops[i]
+            i += 1
+        elif op == 12:
+            slen = ops[i]
+            i += 1
+        n = ops[i]
+        src = bits_of(ops[i + 1:i + 1 + n])
+        i += 1 + n
+        if slen is None:
+            if soff > 8 * n:
+                # src.len()*8 - offset underflows: usize arithmetic, a panic with overflow checks
+                if dev:
+                    raise Panic(2)
+                notes.append("unjudged")
+                return i, ("any",), 0
+            slen = 8 * n - soff
+        if soff + slen > 8 * n:
+            return i, ("err",), 0
+        nb.write(src[soff:soff + slen])
+        return i, ("ok", []), 0
+    if op == 3:
+        if nb.r < nb.w and nb.r < len(nb.store):
+            v = nb.store[nb.r]
+            nb.r += 1
+            return i, ("ok", [v]), 1
+        return i, ("err",), 1
+    if op in (4, 13, 14, 15):
+        doff, dlen = 0, None
+        if op == 4:
+            doff, dlen = ops[i], ops[i + 1]
+            i += 2
+        elif op == 14:
+            dlen = ops[i]
+            i += 1
+        elif op == 15:
+            doff = ops[i]
+            i += 1
+        n, fill = ops[i], ops[i + 1]
+        i += 2
+        if dlen is None:
+            if doff > 8 * n:
+                if dev:
+                    raise Panic(2)
+                notes.append("unjudged")
+                return i, ("any",), n
+            dlen = 8 * n - doff
+        # fewer than dlen bits between the read position and bit_len (or a storage / destination that is too
+        # short): an error, nothing changes. No tolerance for reads into the padding (repaired in /repo 32291cb)
+        if max(0, nb.w - nb.r) < dlen or nb.r + dlen > len(nb.store) or doff + dlen > 8 * n:
+            return i, ("err",), n
+        d = bits_of([fill] * n)
+        d[doff:doff + dlen] = nb.store[nb.r:nb.r + dlen]
+        nb.r += dlen
+        return i, ("ok", bytes_of(d)), n
+    if op == 5:
+        pos, bit = ops[i], ops[i + 1]
+        _, e, pl = sim_buf_op(nb, [20, pos, 1, bit], 0, dev, notes)
+        return i + 2, e, pl
+    if op == 16:
+        nb.store, nb.w, nb.r = [], 0, 0
+        return i, ("ok", []), 0
+    if op == 17:
+        nb.r = 0
+        return i, ("ok", []), 0
+    if op == 18:
+        n = ops[i]
+        need = 8 * ((nb.w + n + 7) // 8)
+        if len(nb.store) < need:
+            nb.store += [0] * (need - len(nb.store))
+        return i + 1, ("ok", []), 0
+    if op == 19:
+        return i, ("ok", [len(nb.store) // 8, nb.w]), 2
+    if op == 20:
+        pos = ops[i]
+        if dev and pos > len(nb.store):
+            raise Panic(5)      # documented: "Positions beyond the current buffer length will result in panics"
+        before, nb.w = nb.w, pos
+        r = sim_buf_op(nb, ops, i + 1, dev, notes)
+        nb.w = before
+        return r
+    if op == 21:
+        pos = ops[i]
+        if dev and not pos < nb.w:
+            raise Panic(5)      # documented: "Positions beyond the current write-position will result in panics"
+        before, nb.r = nb.r, pos
+        r = sim_buf_op(nb, ops, i + 1, dev, notes)
+        nb.r = before
+        return r
+    if op == 22:
+        before, nb.w = nb.w, nb.r + ops[i]
+        r = sim_buf_op(nb, ops, i + 1, dev, notes)
+        nb.w = before
+        return r
+    if op == 30:
+        hd = [nb.w, 0, nb.w, 1 if nb.w == 0 else 0]
+        if nb.w <= len(nb.store):
+            return i, ("ok", hd + [0, nb.w] + bytes_of(nb.store[:nb.w])), None
+        return i, ("ok", hd + [1]), None
+    raise ValueError("unknown sub-op %d" % op)
+
+
+def sim_bits_op(st, ops, i, dev, notes):
+    """naive Bits view: st = dict(bits, ln, pos). -> (i', expectation, payload_len)"""
+    op = ops[i]
+    i += 1
+    bits = st["bits"]
+    lim = min(st["ln"], len(bits))
+    if op == 3:
+        if st["pos"] < lim:
+            v = bits[st["pos"]]
+            st["pos"] += 1
+            return i, ("ok", [v]), 1
+        return i, ("err",), 1
+    if op in (4, 13, 14, 15):
+        doff, dlen = 0, None
+        if op == 4:
+            doff, dlen = ops[i], ops[i + 1]
+            i += 2
+        elif op == 14:
+            dlen = ops[i]
+            i += 1
+        elif op == 15:
+            doff = ops[i]
+            i += 1
+        n, fill = ops[i], ops[i + 1]
+        i += 2
+        if dlen is None:
+            if doff > 8 * n:
+                if dev:
+                    raise Panic(2)
+                notes.append("unjudged")
+                return i, ("any",), n
+            dlen = 8 * n - doff
+        if st["pos"] + dlen > lim or doff + dlen > 8 * n:
+            return i, ("err",), n
+        d = bits_of([fill] * n)
+        d[doff:doff + dlen] = bits[st["pos"]:st["pos"] + dlen]
+        st["pos"] += dlen
+        return i, ("ok", bytes_of(d)), n
+    if op == 8:
+        st["pos"] = min(ops[i], st["ln"])
+        return i + 1, ("ok", [st["pos"]]), 1
+    if op == 9:
+        if st["pos"] > st["ln"]:
+            if dev:
+                raise Panic(2)
+            notes.append("unjudged")
+            return i, ("any",), 1
+        return i, ("ok", [st["ln"] - st["pos"]]), 1
+    if op == 10:
+        st["ln"] = min(ops[i], len(bits))
+        return i + 1, ("ok", [st["ln"]]), 1
+    if op == 21:
+        orig = st["pos"]
+        st["pos"] = min(ops[i], st["ln"])
+        r = sim_bits_op(st, ops, i + 1, dev, notes)
+        st["pos"] = min(orig, st["ln"])
+        return r
+    raise ValueError("unknown Bits sub-op %d" % op)
+
+
 class C11(Spec):
     prop = "C11"
     coq_targets = ["Props/C11.vo"]
     prop_module = "Props.C11"
     theorems = ["C11_bitwise_exact", "C11_bitwise_short", "C11_bitwise_no_panic", "C11_bit_ops", "C11_bulk_exact",
                 "C11_bulk_short", "C11_bulk_no_panic", "C11_write_exact", "C11_read_mirror", "C11_bit_ops_copies",
-                "C11_buffer_inv_step", "C11_buffer_inv", "C11_buffer_refines"]
+                "C11_buffer_inv_step", "C11_buffer_inv", "C11_buffer_refines",
+                "C11_buffer_entry_points", "C11_buffer_write_family", "C11_scope_write_in_place",
+                "C11_refuted_scope_write_past_end", "C11_reachable_inv", "C11_public_ops_step", "C11_reads_keep_bits",
+                "C11_buffer_reads_within_bit_len"]
     builds = [("default", "dev"), ("default", "release")]
     timeout_per_chunk = 300
     level_text = ("Bit-copy correctness theorems over the byte-level model of slice.rs/buffer.rs against the naive "
                   "list-of-bool splice/slice specification; model tied to the crate by differential execution, "
-                  "bounded-exhaustive over (src_off, dst_pos, len) for 5-byte buffers, plus random buffers and op sequences.")
+                  "bounded-exhaustive over (src_off, dst_pos, len) for 5-byte buffers, plus random buffers and op sequences over the "
+                  "whole public surface of BitBuffer and Bits (every method, every constructor, the scoped-position combinators "
+                  "around any op); reachable-buffer invariant proved for all writes, in-place scoped writes, reads, clear, reset; "
+                  "multi-bit reads proved to stop at bit_len; a scoped write past the old end is refuted in Coq and listed (F11-1), "
+                  "as is ensure_can_write_additional_bits on its own (F11-2).")
     rule = ("exhaustive (src_offset, dst_position, len) incl. just-out-of-range for 5-byte src/dst with fill patterns dst/src "
             "00/FF and FF/00 (thorough adds A5/5A and random fills) for write_bits_with_offset_len and read_bits_with_offset_len on the "
-            "tuple carriers; write_bit/read_bit at every position; random buffers up to 64 bytes; BitBuffer and Bits operation "
-            "sequences (<= 40 ops) checked against a Python list-of-bool model. non-trivial = len > 0 and the op succeeded, or "
-            "a sequence with >= 2 successful ops; distinct = distinct case line")
+            "tuple carriers; write_bit/read_bit at every position; random buffers up to 64 bytes; BitBuffer: every public method as a "
+            "sub-op (five writes, five reads, clear, reset_read_position, ensure_can_write_additional_bits, with_write_position_at / "
+            "with_read_position_at / with_max_read around any sub-op, Bits::from(&buffer)), every constructor (default, with_capacity, "
+            "from_bytes, From<Vec<u8>>, from_bits, from_bits_with_position incl. vectors longer than ceil(bit_len/8) and set bits behind "
+            "bit_len, and the asserting arguments), byte_len/bit_len/read position/content observed after every step and Into<Vec<u8>> at "
+            "the end: all sequences x, x;y, y;x (x from a 234-op alphabet at positions {0,1,7,8,9,15,16} with 1-3 source bytes, y from an "
+            "18-op alphabet) on buffers of bit_len {0,1,7,8,9,15,16} reached by writing, and x / y;x on constructor-built buffers; random "
+            "sequences (<= 40 ops) from every constructor; Bits: every BitRead/ScopedBitRead method at every cursor/declared length of a "
+            "3-byte slice, its three constructors, random sequences; all judged by a Python Vec<bool>-plus-cursors model. non-trivial = "
+            "len > 0 and the op succeeded, or a sequence with >= 2 ops that ran to its end; distinct = distinct case line")
     assumptions_text = ["Vec<u8>/slice indexing and copy_from_slice behave as list operations with bounds checks",
                         "64-bit usize"]
+    # Oracle classes with `finding:` lines (KNOWN_FINDINGS.txt): scope_write_leaves_long_buffer (F11-1: a write under
+    # with_write_position_at / with_max_read that runs past the old end of a buffer satisfying the invariant) and
+    # ensure_leaves_long_buffer (F11-2: ensure_can_write_additional_bits called on its own). Any other operation after
+    # which a buffer loses "ceil(bit_len/8) bytes, zero padding" is reported as invariant_lost_op_<n> (not listed).
 
     def gen(self, rng, tier):
         out = []
@@ -95,43 +326,213 @@ class C11(Spec):
                 out.append("1101 %d %d %d %s %s" % (pos, soff, ln, L(d), L(s)))
             else:
                 out.append("1102 %d %d %d %s %s" % (soff, pos, ln, L(s), L(d)))
-        # op sequences on BitBuffer
-        n_seq = 400 if tier == "quick" else 8000
-        for _ in range(n_seq):
+        out += self.gen_small(tier)
+        out += self.gen_random_seqs(rng, tier)
+        return out
+
+    # ---- deterministic part: short sequences over a small alphabet at the boundary positions ----
+    POS = (0, 1, 7, 8, 9, 15, 16)
+    SRC = {1: [0xA5], 2: [0xC3, 0x5A], 3: [0x96, 0xFF, 0x0F]}
+
+    def alphabet(self):
+        """-> (full, small): lists of sub-ops (int lists)"""
+        S = self.SRC
+        writes = [[1, 1], [1, 0]]
+        for k in (1, 2, 3):
+            writes += [[11] + [k] + S[k],                       # write_bits
+                       [12, 8 * k - 3, k] + S[k],               # write_bits_with_len
+                       [7, 5, k] + S[k],                        # write_bits_with_offset
+                       [2, 3, 8 * k - 6, k] + S[k]]             # write_bits_with_offset_len
+        writes += [[12, 8, 1] + S[1], [12, 17, 2] + S[2],       # whole byte / too long for the source
+                   [7, 0, 2] + S[2], [7, 16, 2] + S[2],         # offset 0 / nothing left
+                   [2, 0, 24, 3] + S[3], [2, 8, 17, 3] + S[3]]  # bulk path / source too short
+        reads = [[3], [13, 1, 0], [13, 2, 255], [13, 3, 0], [14, 5, 1, 255], [14, 9, 2, 0],
+                 [15, 3, 2, 0], [15, 8, 1, 255], [4, 2, 9, 2, 0], [4, 0, 17, 3, 255], [4, 7, 2, 1, 0]]
+        scoped_w = [[20, p] + w for p in self.POS for w in writes]
+        scoped_r = [[21, p] + r for p in self.POS for r in ([3], [13, 1, 0], [14, 9, 2, 255], [4, 3, 4, 1, 0])]
+        scoped_m = [[22, mx] + r for mx in (0, 1, 8, 9) for r in ([3], [13, 1, 0], [19], [30])]
+        misc = [[16], [17], [18, 0], [18, 1], [18, 9], [19], [30], [5, 0, 1], [5, 7, 0], [5, 8, 1]]
+        nested = [[20, 8, 20, 0] + w for w in ([11, 1] + S[1], [1, 1])] + [[20, 0, 21, 0, 13, 1, 0], [21, 0, 20, 8] + [11, 2] + S[2],
+                  [22, 8, 20, 0, 11, 1] + S[1], [20, 0, 3], [20, 8, 13, 1, 0], [21, 1, 1, 1], [22, 16, 11, 1] + S[1]]
+        full = writes + reads + scoped_w + scoped_r + scoped_m + misc + nested
+        small = [[1, 1], [11, 1] + S[1], [11, 2] + S[2], [2, 3, 10, 2] + S[2], [12, 5, 1] + S[1],
+                 [20, 0, 11, 1] + S[1], [20, 8, 11, 2] + S[2], [20, 1, 11, 1] + S[1], [20, 8, 12, 3, 1] + S[1],
+                 [20, 0, 7, 0, 3] + S[3], [3], [13, 1, 0], [13, 3, 255], [21, 0, 13, 2, 0], [14, 9, 2, 0], [30], [18, 8], [16]]
+        return full, small
+
+    def gen_small(self, tier):
+        out = []
+        full, small = self.alphabet()
+        fill = [0xE7, 0x3C, 0x99]
+
+        def j(xs):
+            return " ".join(map(str, xs))
+        for p in self.POS:
+            # a buffer reached from the empty one: write_bits_with_len(fill, p)
+            pre = [12, p, 3] + fill
+            for x in full:
+                out.append("1110 " + j(pre + x))
+                for y in (full if (tier != "quick" or p in (8, 9)) else small):
+                    out.append("1110 " + j(pre + x + y))
+                    out.append("1110 " + j(pre + y + x))
+            # constructor-built buffers with bit_len p: exact Vec, Vec with spare zero bytes, Vec with set bits
+            # behind bit_len, and the same with a read position
+            nb = (p + 7) // 8
+            exact = [b & (0xFF << (8 * (i + 1) - p) if 8 * (i + 1) > p else 0xFF) & 0xFF for i, b in enumerate(fill[:nb])]
+            ctors = [[3, nb] + exact + [p], [3, 3, ] + (exact + [0, 0, 0])[:3] + [p], [3, 3] + fill + [p],
+                     [4, 3] + fill + [p, min(p, 3)], [4, 4] + (exact + [0, 0, 0, 0])[:4] + [p, 0]]
+            for ci, c in enumerate(ctors):
+                for x in full:
+                    out.append("1112 " + j(c + x))
+                if ci in (1, 2):
+                    for x in full:
+                        for y in small[:10]:
+                            out.append("1112 " + j(c + y + x))
+        # constructors on their own, incl. the asserting ones
+        for n in (0, 1, 2, 3):
+            bs = fill[:n]
+            out.append("1112 " + j([2, n] + bs + [30, 3, 11, 1, 0xA5]))
+            out.append("1112 " + j([5, n] + bs + [30, 3, 11, 1, 0xA5]))
+            for bl in range(0, 8 * n + 2):
+                out.append("1112 " + j([3, n] + bs + [bl, 30, 1, 1, 3]))
+                out.append("1113 " + j([1, n] + bs + [bl, 3, 13, 1, 0, 9]))
+                for rp in (0, 1, 8 * n, 8 * n + 1):
+                    out.append("1112 " + j([4, n] + bs + [bl, rp, 3, 13, 1, 0, 1, 1]))
+                    out.append("1113 " + j([2, n] + bs + [bl, rp, 3, 13, 1, 0, 9]))
+            out.append("1113 " + j([0, n] + bs + [3, 13, 1, 0, 9, 15, 3, 1, 255, 14, 3, 1, 0]))
+        for cap in (0, 1, 7, 64):
+            out.append("1112 " + j([1, cap, 19, 11, 2, 1, 2, 30]))
+        out.append("1112 0")
+        # Bits: every read method at every cursor of a 3-byte slice with the declared lengths around the byte borders
+        sl = [0xE7, 0x3C, 0x99]
+        rops = [[3], [13, 1, 0], [13, 2, 255], [14, 5, 1, 0], [14, 9, 2, 255], [15, 3, 1, 0], [15, 1, 2, 255], [4, 2, 9, 2, 0], [4, 0, 17, 3, 0],
+                [21, 0, 13, 1, 0], [21, 9, 3], [21, 30, 14, 1, 1, 0], [9]]
+        for ln in (0, 1, 7, 8, 9, 15, 16, 17, 23, 24):
+            for pos in self.POS + (17, 23, 24):
+                for x in rops:
+                    out.append("1113 " + j([1, 3] + sl + [ln, 8, pos] + x + [9]))
+                    if ln in (9, 24) and pos in (0, 1, 8):
+                        for y in rops:
+                            out.append("1113 " + j([1, 3] + sl + [ln, 8, pos] + x + y + [9]))
+        return out
+
+    # ---- random sequences over the whole surface ----
+    def rand_pos(self, rng, hi):
+        """a position in 0..=hi, biased to the ends and to byte borders"""
+        k = rng.random()
+        if k < 0.2:
+            return hi
+        if k < 0.3:
+            return 0
+        if k < 0.6:
+            return min(hi, 8 * rng.randrange(0, hi // 8 + 1))
+        return rng.randrange(0, hi + 1)
+
+    def rand_write(self, rng):
+        k = rng.random()
+        n = rng.choice([0, 1, 1, 2, 2, 3, 3, 4, rng.randrange(0, 9)])
+        src = [rng.randrange(256) for _ in range(n)]
+        if k < 0.2:
+            return [1, rng.randrange(2)], 1
+        if k < 0.4:
+            return [11, n] + src, 8 * n
+        if k < 0.55:
+            ln = rng.choice([rng.randrange(0, 8 * n + 1), 8 * n, 8 * n + (1 if rng.random() < 0.15 else 0)])
+            return [12, ln, n] + src, (ln if ln <= 8 * n else 0)
+        if k < 0.7:
+            soff = rng.choice([0, rng.randrange(0, 8 * n + 1), 8 * n])
+            return [7, soff, n] + src, 8 * n - soff
+        soff = rng.randrange(0, 8 * n + 1)
+        mx = 8 * n - soff
+        ln = rng.choice([rng.randrange(0, mx + 1), mx, mx + (1 if rng.random() < 0.1 else 0)])
+        return [2, soff, ln, n] + src, (ln if ln <= mx else 0)
+
+    def rand_read(self, rng):
+        k = rng.random()
+        n = rng.randrange(0, 6)
+        fill = rng.choice([0, 255])
+        if k < 0.25:
+            return [3]
+        if k < 0.45:
+            return [13, n, fill]
+        if k < 0.6:
+            return [14, rng.randrange(0, 8 * n + 1), n, fill]
+        if k < 0.75:
+            return [15, rng.randrange(0, 8 * n + 1), n, fill]
+        doff = rng.randrange(0, 8 * n + 1)
+        return [4, doff, rng.randrange(0, 8 * n - doff + 1 + (1 if rng.random() < 0.05 else 0)), n, fill]
+
+    def gen_random_seqs(self, rng, tier):
+        out = []
+        n_seq = 2500 if tier == "quick" else 30000
+        for si in range(n_seq):
+            # constructor
+            k = rng.random()
+            nbytes = rng.randrange(0, 6)
+            bs = [rng.choice([0, 255, rng.randrange(256)]) for _ in range(nbytes)]
+            if k < 0.45:
+                head, wpos, blen = "1110", 0, 0
+            elif k < 0.5:
+                head, wpos, blen = "1112 1 %d" % rng.randrange(0, 64), 0, 0
+            elif k < 0.6:
+                head, wpos, blen = "1112 %d %s" % (rng.choice([2, 5]), L(bs)), 8 * nbytes, nbytes
+            elif k < 0.8:
+                wpos = self.rand_pos(rng, 8 * nbytes)
+                head, blen = "1112 3 %s %d" % (L(bs), wpos), nbytes
+            else:
+                wpos = self.rand_pos(rng, 8 * nbytes)
+                head, blen = "1112 4 %s %d %d" % (L(bs), wpos, self.rand_pos(rng, 8 * nbytes)), nbytes
             ops = []
-            wpos = 0
+            # wpos / blen: generator-side estimate of bit_len and byte_len (only used to aim positions)
             for _ in range(rng.randrange(1, 41)):
                 k = rng.random()
-                if k < 0.25:
-                    ops += [1, rng.randrange(2)]
-                    wpos += 1
-                elif k < 0.6:
-                    n = rng.randrange(0, 9)
-                    src = [rng.randrange(256) for _ in range(n)]
-                    soff = rng.randrange(0, 8 * n + 1)
-                    mx = 8 * n - soff
-                    slen = rng.choice([rng.randrange(0, mx + 1), mx, mx + (1 if rng.random() < 0.1 else 0)])
-                    ops += [2, soff, slen] + [n] + src
-                    if slen <= mx:
-                        wpos += slen
-                elif k < 0.7:
-                    n = rng.randrange(0, 5)
-                    src = [rng.randrange(256) for _ in range(n)]
-                    soff = rng.randrange(0, 8 * n + 1)
-                    ops += [7, soff, n] + src
-                    wpos += 8 * n - soff
+                if k < 0.38:
+                    w, n = self.rand_write(rng)
+                    ops += w
+                    wpos += n
+                    blen = max(blen, (wpos + 7) // 8)
+                elif k < 0.58:
+                    ops += self.rand_read(rng)
                 elif k < 0.8:
-                    ops += [3]
+                    # with_write_position_at(pos, any write): anywhere in 0..=bit_len, sometimes up to the end of the
+                    # byte vector, rarely one past it (documented panic in a debug build)
+                    hi = wpos if rng.random() < 0.85 else 8 * blen
+                    pos = self.rand_pos(rng, hi)
+                    if rng.random() < 0.01:
+                        pos = 8 * blen + 1
+                    w, n = self.rand_write(rng)
+                    if rng.random() < 0.1:
+                        w, n = [1, rng.randrange(2)], 1
+                        ops += [5, pos, w[1]]
+                    else:
+                        ops += [20, pos] + w
+                    blen = max(blen, (pos + n + 7) // 8)
+                elif k < 0.87:
+                    if wpos > 0 or rng.random() < 0.02:
+                        pos = self.rand_pos(rng, max(0, wpos - 1)) if rng.random() < 0.98 else wpos
+                        ops += [21, pos] + self.rand_read(rng)
+                elif k < 0.91:
+                    inner = rng.choice([self.rand_read(rng), [19], [30], self.rand_write(rng)[0] if rng.random() < 0.3 else [3]])
+                    ops += [22, rng.randrange(0, 20)] + inner
+                    if inner[0] in W_OPS:
+                        blen = max(blen, 8)   # unknown; aim generously
                 elif k < 0.93:
-                    n = rng.randrange(0, 6)
-                    doff = rng.randrange(0, 8 * n + 1)
-                    dlen = rng.randrange(0, 8 * n - doff + 1)
-                    ops += [4, doff, dlen, n, rng.choice([0, 255])]
-                elif wpos > 0:
-                    ops += [5, rng.randrange(wpos), rng.randrange(2)]
-            out.append("1110 " + " ".join(map(str, ops)))
+                    ops += [16]
+                    wpos, blen = 0, 0
+                elif k < 0.95:
+                    ops += [17]
+                elif k < 0.96:
+                    n = rng.randrange(0, 20)
+                    ops += [18, n]
+                    blen = max(blen, (wpos + n + 7) // 8)
+                elif k < 0.98:
+                    ops += [30]
+                else:
+                    ops += [19]
+            out.append((head + " " + " ".join(map(str, ops))).strip())
         # op sequences on Bits
-        for _ in range(n_seq):
+        n_bits = 1200 if tier == "quick" else 12000
+        for _ in range(n_bits):
             n = rng.randrange(0, 9)
             sl = [rng.randrange(256) for _ in range(n)]
             ln = rng.choice([8 * n, rng.randrange(0, 8 * n + 1)])
@@ -139,13 +540,10 @@ class C11(Spec):
             ops = []
             for _ in range(rng.randrange(1, 25)):
                 k = rng.random()
-                if k < 0.35:
-                    ops += [3]
+                if k < 0.55:
+                    ops += self.rand_read(rng)
                 elif k < 0.7:
-                    m = rng.randrange(0, 5)
-                    doff = rng.randrange(0, 8 * m + 1)
-                    dlen = rng.randrange(0, 8 * m - doff + 1)
-                    ops += [4, doff, dlen, m, rng.choice([0, 255])]
+                    ops += [21, rng.randrange(0, 8 * n + 3)] + (self.rand_read(rng) if rng.random() < 0.8 else [9])
                 elif k < 0.8:
                     ops += [8, rng.randrange(0, 8 * n + 3)]
                 elif k < 0.95:
@@ -155,15 +553,31 @@ class C11(Spec):
                     # shrinking below the cursor is caller misuse, not decoding)
                     cur_len = min(8 * n, rng.randrange(cur_len, 8 * n + 10))
                     ops += [10, cur_len]
-            out.append("1111 %d %s %s" % (ln, L(sl), " ".join(map(str, ops))))
+            c = rng.random()
+            if c < 0.4:
+                out.append("1111 %d %s %s" % (ln, L(sl), " ".join(map(str, ops))))
+            elif c < 0.6:
+                if ln != 8 * n:
+                    ops = [10, ln] + ops
+                out.append("1113 0 %s %s" % (L(sl), " ".join(map(str, ops))))
+            elif c < 0.8:
+                out.append("1113 1 %s %d %s" % (L(sl), ln, " ".join(map(str, ops))))
+            else:
+                out.append("1113 2 %s %d %d %s" % (L(sl), ln, rng.randrange(0, 8 * n + 1), " ".join(map(str, ops))))
         return out
 
     # ---- oracle: the naive bit-vector model, in Python ----
     def oracle(self, line, out, build):
+        try:
+            return self._oracle(line, out, build)
+        except (IndexError, ValueError) as e:
+            return ("malformed_answer", "answer cannot be read as the records of this case: %s (%r)" % (out[:80], e))
+
+    def _oracle(self, line, out, build):
         a = list(map(int, line.split()))
         o = list(map(int, out.split()))
         op = a[0]
-        if o[:1] in ([2], [3]):
+        if o[:1] == [3] or (o[:1] == [2] and op in (1101, 1102, 1103, 1104)):
             return ("panic", "panic/crash instead of Ok/Err: %s" % out)
         if op in (1101, 1102):
             pos, soff, ln = a[1], a[2], a[3]
@@ -209,152 +623,204 @@ class C11(Spec):
             if o != [0, pos + 1, bits_of(s)[pos]]:
                 return ("wrong_bits", "read_bit result %s" % o)
             return None
+        dev = build[1] == "dev"
         if op == 1110:
-            return self._oracle_buf_seq(a[1:], o)
+            return self._oracle_buf_seq(NB([], 0, 0), a[1:], o, dev, line)
         if op == 1111:
             ln, n = a[1], a[2]
-            return self._oracle_bits_seq(ln, a[3:3 + n], a[3 + n:], o)
+            if dev and ln > 8 * n:
+                return None if o == [2, 5] else ("panic", "Bits::from((slice, len)) with len > 8*|slice|: expected the debug assertion, got %s" % o[:2])
+            return self._oracle_bits_seq({"bits": bits_of(a[3:3 + n]), "ln": ln, "pos": 0}, n, a[3 + n:], o, dev)
+        if op == 1112:
+            st, ops = self._buf_ctor(a[1:])
+            if st is None:
+                return None if o == [2, 5] else ("panic", "constructor assertion expected, got %s" % o[:2])
+            return self._oracle_buf_seq(st, ops, o, dev, line)
+        if op == 1113:
+            k, n = a[1], a[2]
+            sl = a[3:3 + n]
+            rest = a[3 + n:]
+            if k == 0:
+                return self._oracle_bits_seq({"bits": bits_of(sl), "ln": 8 * n, "pos": 0}, n, rest, o, dev)
+            if k == 1:
+                ln = rest[0]
+                if dev and ln > 8 * n:
+                    return None if o == [2, 5] else ("panic", "Bits::from((slice, len)) with len > 8*|slice|: expected the debug assertion, got %s" % o[:2])
+                return self._oracle_bits_seq({"bits": bits_of(sl), "ln": ln, "pos": 0}, n, rest[1:], o, dev)
+            if k == 2:
+                w, r = rest[0], rest[1]
+                if w > 8 * n or r > 8 * n:
+                    return None if o == [2, 5] else ("panic", "constructor assertion expected, got %s" % o[:2])
+                # Bits::from(&BitBuffer): the view starts at 0 with len = bit_len()
+                return self._oracle_bits_seq({"bits": bits_of(sl), "ln": w, "pos": 0}, n, rest[2:], o, dev)
         return None
 
-    def _oracle_bits_seq(self, ln, sl, ops, o):
-        bits = bits_of(sl)
-        pos = 0
+    @staticmethod
+    def _buf_ctor(a):
+        """-> (NB | None when the constructor asserts, ops)"""
+        k = a[0]
+        if k == 0:
+            return NB([], 0, 0), a[1:]
+        if k == 1:
+            return NB([], 0, 0), a[2:]
+        n = a[1]
+        bs = a[2:2 + n]
+        rest = a[2 + n:]
+        if k in (2, 5):
+            return NB(bits_of(bs), 8 * n, 0), rest
+        if k == 3:
+            return (NB(bits_of(bs), rest[0], 0) if rest[0] <= 8 * n else None), rest[1:]
+        if k == 4:
+            ok = rest[0] <= 8 * n and rest[1] <= 8 * n
+            return (NB(bits_of(bs), rest[0], rest[1]) if ok else None), rest[2:]
+        raise ValueError("ctor %d" % k)
+
+    @staticmethod
+    def _take_record(o, k, exp, plen):
+        """parse one sub-op record at o[k:]; -> (k', status, payload)"""
+        st = o[k]
+        k += 1
+        if st == 1:
+            return k + 1, 1, [o[k]]
+        if plen is None:
+            # Bits probe: len pos remaining is_empty, then 0 pos' bytes | 1 kind | 3
+            hd = o[k:k + 4]
+            k += 4
+            t = o[k]
+            k += 1
+            if t == 0:
+                nbytes = (hd[0] + 7) // 8
+                return k + 1 + nbytes, 0, hd + [0] + o[k:k + 1 + nbytes]
+            if t == 1:
+                return k + 1, 0, hd + [1]
+            return k, 0, hd + [t]
+        return k + plen, 0, o[k:k + plen]
+
+    def _oracle_bits_seq(self, st, nbytes, ops, o, dev):
         i = 0
         k = 1
+        notes = []
+
+        def state(k):
+            sl, l2, p2, emp = o[k:k + 4]
+            if sl != nbytes or l2 != st["ln"] or p2 != st["pos"]:
+                return ("cursor", "Bits (len,pos) = (%d,%d), expected (%d,%d)" % (l2, p2, st["ln"], st["pos"]))
+            if emp != (1 if st["ln"] == 0 else 0):
+                return ("cursor", "is_empty() = %d at len %d" % (emp, st["ln"]))
+            return None
+        # walk the naive model first: a documented panic anywhere makes the whole answer "2 class"
+        try:
+            steps = []
+            st2 = dict(st)
+            j = 0
+            while j < len(ops):
+                j, exp, plen = sim_bits_op(st2, ops, j, dev, notes)
+                steps.append((exp, plen, dict(st2)))
+        except Panic as pn:
+            return None if o == [2, pn.cls] else ("panic", "expected panic class %d (usize underflow in a debug build), got %s" % (pn.cls, o[:2]))
         if o[0] != 0:
             return ("panic", "sequence aborted: %s" % o[:2])
-        while i < len(ops):
-            op = ops[i]
-            i += 1
-            expect_err = False
-            want = None
-            if op == 3:
-                if pos < ln:
-                    want = [bits[pos]]
-                    pos += 1
-                else:
-                    expect_err = True
-            elif op == 4:
-                doff, dlen, m, fill = ops[i:i + 4]
-                i += 4
-                if ln - pos >= dlen:
-                    d = bits_of([fill] * m)
-                    d[doff:doff + dlen] = bits[pos:pos + dlen]
-                    want = bytes_of(d)
-                    pos += dlen
-                else:
-                    expect_err = True
-            elif op == 8:
-                pos = min(ops[i], ln)
-                i += 1
-            elif op == 9:
-                want = [ln - pos]
-            elif op == 10:
-                ln = min(ops[i], 8 * len(sl))
-                i += 1
-            st = o[k]
-            k += 1
-            if st == 1:
-                k += 1
-                if not expect_err:
-                    return ("spurious_err", "Bits op %d failed unexpectedly" % op)
-            else:
-                if expect_err:
-                    return ("read_past_len", "Bits op %d succeeded beyond the declared length %d" % (op, ln))
-                if want is not None:
-                    got = o[k:k + len(want)]
-                    k += len(want)
-                    if got != want:
-                        return ("wrong_bits", "Bits op %d returned %s, expected %s" % (op, got, want))
-            _, l2, p2, _ = o[k:k + 4]
+        f = state(k)
+        if f:
+            return f
+        k += 4
+        for (exp, plen, snap) in steps:
+            k, status, payload = self._take_record(o, k, exp, plen)
+            if exp[0] == "any":
+                return None
+            if status == 1 and exp[0] == "ok":
+                return ("spurious_err", "Bits op failed unexpectedly (kind %s)" % payload)
+            if status == 0 and exp[0] == "err":
+                return ("read_past_len", "Bits read succeeded beyond the declared length %d / the slice" % st["ln"])
+            if status == 0 and payload != exp[1]:
+                return ("wrong_bits", "Bits op returned %s, expected %s" % (payload[:12], exp[1][:12]))
+            st.update(snap)
+            f = state(k)
+            if f:
+                return f
             k += 4
-            if l2 != ln or p2 != pos:
-                return ("cursor", "Bits (len,pos) = (%d,%d), expected (%d,%d)" % (l2, p2, ln, pos))
+        if k != len(o):
+            return ("wrong_bits", "trailing output %s" % o[k:k + 8])
         return None
 
-    def _oracle_buf_seq(self, ops, o):
-        bits = []
-        rpos = 0
-        i = 0
-        k = 1  # index into o (o[0] is the overall status)
+    def _oracle_buf_seq(self, nb, ops, o, dev, line):
+        notes = []
+        # 1. walk the naive model over the whole sequence
+        steps = []
+        clean = nb.inv()
+        first = (list(nb.store), nb.w, nb.r)
+        try:
+            j = 0
+            while j < len(ops):
+                top = ops[j]
+                jj = j
+                scoped = top == 5
+                while ops[jj] in SCOPES:
+                    scoped = scoped or ops[jj] in (20, 22)
+                    jj += 2
+                nn = []
+                j, exp, plen = sim_buf_op(nb, ops, j, dev, nn)
+                steps.append((top, scoped, exp, plen, list(nb.store), nb.w, nb.r, nn))
+        except Panic as pn:
+            return None if o == [2, pn.cls] else ("panic", "expected the documented panic (class %d), got %s" % (pn.cls, o[:2]))
         if o[0] != 0:
             return ("panic", "sequence aborted: %s" % o[:2])
-        while i < len(ops):
-            op = ops[i]
-            i += 1
-            expect_err = False
-            read_out = None
-            if op == 1:
-                bits.append(1 if ops[i] else 0)
-                i += 1
-            elif op == 2:
-                soff, slen, n = ops[i], ops[i + 1], ops[i + 2]
-                src = ops[i + 3:i + 3 + n]
-                i += 3 + n
-                if soff + slen <= 8 * n:
-                    bits += bits_of(src)[soff:soff + slen]
-                else:
-                    expect_err = True
-            elif op == 7:
-                soff, n = ops[i], ops[i + 1]
-                src = ops[i + 2:i + 2 + n]
-                i += 2 + n
-                bits += bits_of(src)[soff:]
-            elif op == 3:
-                if rpos < len(bits):
-                    read_out = [bits[rpos]]
-                    rpos += 1
-                else:
-                    expect_err = True
-            elif op == 4:
-                doff, dlen, n, fill = ops[i:i + 4]
-                i += 4
-                # the buffer's storage is whole bytes: reads are bounded by the byte length (padding is zero)
-                stored = bits + [0] * ((-len(bits)) % 8)
-                if rpos + dlen <= len(stored):
-                    d = bits_of([fill] * n)
-                    d[doff:doff + dlen] = stored[rpos:rpos + dlen]
-                    read_out = bytes_of(d)
-                    rpos += dlen
-                else:
-                    expect_err = True
-            elif op == 5:
-                pos, bit = ops[i], ops[i + 1]
-                i += 2
-                bits[pos] = 1 if bit else 0
-            # parse the op's record
-            st = o[k]
-            k += 1
-            if st == 1:
-                k += 1
-                if not expect_err:
-                    return ("spurious_err", "op %d failed unexpectedly" % op)
-            else:
-                if expect_err:
-                    return ("short_not_err", "op %d should have failed" % op)
-                if read_out is not None:
-                    got = o[k:k + len(read_out)]
-                    k += len(read_out)
-                    if got != read_out:
-                        return ("wrong_bits", "read returned %s, expected %s" % (got, read_out))
-            blen, wpos, rp, last = o[k:k + 4]
-            k += 4
-            if wpos != len(bits):
-                return ("cursor", "bit_len %d, expected %d" % (wpos, len(bits)))
-            if blen != (wpos + 7) // 8:
-                return ("buffer_len", "buffer is %d bytes long at bit_len %d after op %d%s" %
-                        (blen, wpos, op, " (failed write)" if st == 1 else ""))
-            if wpos % 8 and last & ((1 << (8 - wpos % 8)) - 1):
-                return ("padding", "padding bits not zero: last byte %d at bit_len %d" % (last, wpos))
-        if o[k:] != bytes_of(bits):
-            return ("wrong_bits", "final buffer %s, expected %s" % (o[k:k + 8], bytes_of(bits)[:8]))
+        k = 1
+
+        def state(k, store, w, r, what):
+            blen, wp, rp = o[k:k + 3]
+            content = o[k + 3:k + 3 + blen]
+            k += 3 + blen
+            if wp != w:
+                return k, ("cursor", "bit_len %d, expected %d %s" % (wp, w, what))
+            if rp != r:
+                return k, ("cursor", "read position %d, expected %d %s" % (rp, r, what))
+            if 8 * blen != len(store):
+                return k, ("buffer_len", "buffer is %d bytes long at bit_len %d %s, expected %d" % (blen, wp, what, len(store) // 8))
+            if content != bytes_of(store):
+                got = bits_of(content)
+                bad = [x for x in range(len(store)) if got[x] != store[x]]
+                cls = "padding" if all(x >= w for x in bad) else "wrong_bits"
+                return k, (cls, "stored bits differ at %s %s (bit_len %d)" % (bad[:8], what, w))
+            return k, None
+        k, f = state(k, first[0], first[1], first[2], "after the constructor")
+        if f:
+            return f
+        judged = []
+        for (top, scoped, exp, plen, store, w, r, nn) in steps:
+            what = "after op %d" % top
+            k, status, payload = self._take_record(o, k, exp, plen)
+            if exp[0] == "any":
+                return None
+            if status == 1 and exp[0] == "ok":
+                return ("spurious_err", "op %d failed unexpectedly (kind %s)" % (top, payload))
+            if status == 0 and exp[0] == "err":
+                return ("short_not_err", "op %d should have failed" % top)
+            if status == 0 and payload != exp[1]:
+                return ("wrong_bits", "op %d returned %s, expected %s" % (top, payload[:12], exp[1][:12]))
+            k, f = state(k, store, w, r, what + (" (failed)" if status == 1 else ""))
+            if f:
+                return f
+            # 2. the invariant of the property on the (now confirmed) state: candidates, not failures
+            now = len(store) == 8 * ((w + 7) // 8) and not any(store[w:])
+            found = []
+            if clean and not now:
+                found.append({18: "ensure_leaves_long_buffer"}.get(top, "scope_write_leaves_long_buffer" if scoped else "invariant_lost_op_%d" % top))
+            for cls in found:
+                judged.append((cls, "after op %d the buffer is %d bytes long at bit_len %d (content %s): it satisfied "
+                               "'ceil(bit_len/8) bytes, zero padding' before" % (top, len(store) // 8, w, bytes_of(store)[:6])))
+            clean = now
+        if judged:
+            return judged
+        if o[k:] != bytes_of(steps[-1][4] if steps else first[0]):
+            return ("wrong_bits", "Into<Vec<u8>> gives %s" % o[k:k + 8])
         return None
 
     def nontrivial(self, line, out):
         a = line.split()
         if a[0] in ("1101", "1102"):
             return out.startswith("0") and a[3] != "0"
-        if a[0] in ("1110", "1111"):
+        if a[0] in ("1110", "1111", "1112", "1113"):
             return out.startswith("0") and len(a) > 6
         return out.startswith("0")
 
